@@ -65,3 +65,45 @@ Theorem C01_exctable_roundtrip : forall es, Forall ok_ent es ->
   parse_exception_table (enc_table es) = map ent_of_raw es.
 Proof. exact exctable_roundtrip. Qed.
 Print Assumptions C01_exctable_roundtrip.
+
+(* ---------------------------------------------------------------------------------------------
+   CPython 3.9 / 3.10 (block-stack interpreters).  PARTIAL: there is no with-protocol machine for
+   these versions, so exactness of the whole context list is not a theorem there (runtime
+   ground-truth leg).  What is proved is the part of the analysis that needs an argument about
+   every execution: which block an exit call in progress belongs to.  For a code object whose
+   block-stack certificate Coq's [check_bcert] accepts (run on every corpus code object under
+   3.10 and 3.9, kind `bs`), whenever the model of currently_exiting_context answers
+   "exiting, handler h" because the frame rests behind a POP_BLOCK, then on EVERY execution of the
+   block-stack machine (all branch outcomes, loops, an exception at any instruction) that reaches
+   this POP_BLOCK the innermost open SETUP_* block is the one with handler h — the block that
+   POP_BLOCK pops; and some execution does reach it. *)
+Require Import M_BlockStack P_BlockStack.
+Theorem C01_py310_exiting_block_partial : forall c ce lasti a h,
+  check_bcert c ce = true ->
+  exiting310 c lasti = EExit a h ->
+  scan c lasti = ScHandler a h \/
+  exists pop, scan c lasti = ScPop a pop /\ bat c pop = BPopBlock /\
+              (exists st, breach c (pop, st)) /\
+              forall st, breach c (pop, st) -> last_opt st = Some h.
+Proof. exact exiting310_sound. Qed.
+Print Assumptions C01_py310_exiting_block_partial.
+
+(* the certificate really is an invariant of all executions of the block-stack machine *)
+Theorem C01_py310_cert_sound : forall c ce s,
+  check_bcert c ce = true -> breach c s -> cat ce (fst s) = Some (snd s).
+Proof. exact cert_sound. Qed.
+Print Assumptions C01_py310_cert_sound.
+
+(* analyze_with_blocks before 3.11: one entry per SETUP_WITH / SETUP_ASYNC_WITH, keyed by its
+   handler, is_async iff SETUP_ASYNC_WITH *)
+Theorem C01_py310_with_info : forall c h a,
+  In (h, a) (with_info c) <-> exists p, p < length c /\ bat c p = BSetup (if a then WAsyncWith else WWith) h.
+Proof. exact with_info_spec. Qed.
+Print Assumptions C01_py310_with_info.
+
+(* non-vacuity: a with block, its exit call, its handler *)
+Example C01_py310_example :
+  check_bcert P_BlockStack.ex_code P_BlockStack.ex_cert = true /\
+  exiting310 P_BlockStack.ex_code 6 = EExit false 9 /\ exiting310 P_BlockStack.ex_code 9 = EExit false 9 /\
+  exiting310 P_BlockStack.ex_code 1 = ENone.
+Proof. vm_compute. repeat split. Qed.
